@@ -14,9 +14,25 @@ pub mod task {
 }
 pub mod sync {
     use vstd::prelude::*;
+    /// std::sync::Mutex, used by the async writer to hold its state behind `Pin<&mut Self>`.
+    /// ASSUMED / MODEL: the units that lock it hold `&mut self` (after R21), so `lock()` is given
+    /// the semantics of `Mutex::get_mut`: exclusive access to the protected value, never
+    /// poisoned (a poisoned mutex needs a panic while it is held, which C20 excludes for the
+    /// verified units).  Contention between threads is not modelled (C07).
     #[verifier::external_body]
     #[verifier::reject_recursive_types(T)]
     pub struct Mutex<T> { t: T }
+    impl<T> View for Mutex<T> { type V = T; uninterp spec fn view(&self) -> T; }
+    pub struct PoisonError { pub p: u8 }
+    impl ::std::fmt::Debug for PoisonError { #[verifier::external_body] fn fmt(&self, f: &mut ::std::fmt::Formatter<'_>) -> ::std::fmt::Result { Ok(()) } }
+    impl<T> Mutex<T> {
+        #[verifier::external_body]
+        pub fn new(t: T) -> (r: Mutex<T>) ensures r@ == t { unimplemented!() }
+        #[verifier::external_body]
+        pub fn lock(&mut self) -> (r: Result<&mut T, PoisonError>)
+            ensures r is Ok, *r->Ok_0 == old(self)@, final(self)@ == *final(r->Ok_0)
+        { unimplemented!() }
+    }
 }
 pub mod os {
     pub mod unix { pub mod fs {
